@@ -281,7 +281,10 @@ class GriffeLoader:
                 module_path = export.canonical_path.rsplit(".", 1)[0]  # Remove trailing `.__all__`.
                 try:
                     next_module = self.modules_collection.get_member(module_path)
-                except KeyError:
+                    if next_module.is_alias:
+                        # The module is referenced through an imported name: expand the module itself.
+                        next_module = next_module.final_target
+                except (KeyError, AliasResolutionError, CyclicAliasError):
                     logger.debug("Cannot expand '%s', try pre-loading corresponding package", export.canonical_path)
                     continue
                 if next_module.path not in seen:
